@@ -33,9 +33,11 @@ def prog(ctor: int, k: int, npool: int, o1: int, a1: int, o2: int, a2: int, o3: 
             d = param.Parameter(default=None, constant=True)
             k = param.Parameter(default=O[0], constant=True, allow_refs=True)
             r = param.Parameter(default=O[0], readonly=True)
+            r2 = param.Parameter(default=O[0])
 
         class Q(P):
             pass
+        P.param.r2.readonly = True      # read-only by flag only: its constant flag stays False
     ctor = pick(ctor, 0, 2)
     if ctor == 2:
         # a constant given a reference that has nothing to deliver yet (param.Skip): the instance keeps the default object
@@ -86,6 +88,8 @@ def prog(ctor: int, k: int, npool: int, o1: int, a1: int, o2: int, a2: int, o3: 
             tgt = [p, P, Q][a % 3]
             res = attempt(lambda: setattr(tgt, 'r', v))
             check('C14.readonly_never', res == 'TypeError', dict(info, level=a % 3))
+            res = attempt(lambda: setattr(tgt, 'r2', v))
+            check('C14.readonly_never', res == 'TypeError', dict(info, level=a % 3, runtime_flag=True))
         elif o == 4:
             assume(len(stack) < 2)
             cm = edit_constant(p)
@@ -108,7 +112,7 @@ def prog(ctor: int, k: int, npool: int, o1: int, a1: int, o2: int, a2: int, o3: 
             if res == 'ok':
                 held_name = nm
         check('C14.const_identity', p.c is held['c'] and p.d is held['d'] and p.k is held['k'] and p.name is held_name, info)
-        check('C14.readonly_value', p.r is O[0] and P.r is O[0] and Q.r is O[0], info)
+        check('C14.readonly_value', p.r is O[0] and P.r is O[0] and Q.r is O[0] and p.r2 is O[0] and P.r2 is O[0], info)
         if not stack:
             ok = all(p.param[n].constant is True and Q.param[n].constant is True and P.param[n].constant is True
                      for n in ('c', 'd', 'r', 'name'))
